@@ -11,6 +11,12 @@ Definition W (n : string) (c s b : N) (d : list N) (x : string) : op :=
   OWrite (unhex n) (Some (mkValue c s b d (unhex x))).
 Definition WB (n : string) : op := OWrite (unhex n) None.
 Definition D (n : string) : op := ODelete (unhex n).
+(* long runs of one byte (names of 65534 bytes ...) are transported as (count, byte) *)
+Definition rp (k b : N) : bytes := repeat b (N.to_nat k).
+Definition uh (s : string) : bytes := unhex s.
+Definition Wb (n : bytes) (c s b : N) (d : list N) (x : bytes) : op := OWrite n (Some (mkValue c s b d x)).
+Definition Db (n : bytes) : op := ODelete n.
+Definition GAb (n : bytes) (c s b : N) (d : list N) (x : bytes) : attr := mkAttr n (mkValue c s b d x).
 Definition GA (n : string) (c s b : N) (d : list N) (x : string) : attr :=
   mkAttr (unhex n) (mkValue c s b d (unhex x)).
 
